@@ -7,6 +7,7 @@ package main
 
 import (
 	"bufio"
+	"bytes"
 	"fmt"
 	"math"
 	"math/rand"
@@ -16,7 +17,9 @@ import (
 
 	"github.com/jrhy/mast"
 	"github.com/jrhy/s3db"
+	"github.com/jrhy/s3db/kv"
 	"github.com/jrhy/s3db/kv/crdt"
+	"golang.org/x/crypto/nacl/secretbox"
 )
 
 type gen struct{ r *rand.Rand }
@@ -418,6 +421,110 @@ func runL0(seed int64, n int, dir string) error {
 				out.s("P")
 			}
 			emit("nodecodec", in, out)
+		}
+		// --- node encryption framing (kv/crypto.go) against the model with the primitives'
+		//     results supplied as tables: blake2b-192 digest, secretbox Seal/Open, legacy open
+		if c%3 == 0 {
+			var key [32]byte
+			g.r.Read(key[:])
+			lens := []int{0, 1, 15, 16, 17, 31, 32, 33, 47, 48, 63, 64, 65, 100, 127, 128, 129, 200}
+			l := lens[g.r.Intn(len(lens))]
+			if g.r.Intn(4) == 0 {
+				l = g.r.Intn(300)
+			}
+			msg := make([]byte, l)
+			g.r.Read(msg)
+			// encrypt
+			{
+				in, out := &tw{}, &tw{}
+				in.s("enc")
+				in.bytes(key[:])
+				in.bytes(msg)
+				dig, _ := kv.VerifNonce(append(append([]byte{}, msg...), key[:]...), 24)
+				var n24 [24]byte
+				copy(n24[:], dig)
+				in.bytes(dig)
+				in.bytes(secretbox.Seal(nil, msg, &n24, &key))
+				ct, err := kv.VerifEncrypt(&key, msg)
+				ct2, _ := kv.VerifEncrypt(&key, msg)
+				switch {
+				case err != nil:
+					out.s("err")
+				default:
+					out.s("ok")
+					out.bytes(ct)
+					if !bytes.Equal(ct, ct2) {
+						out.s("NONDET")
+					}
+					if len(msg) >= 8 && bytes.Contains(ct, msg) {
+						out.s("PLAINTEXT")
+					}
+				}
+				stats["crypto_enc"]++
+				emit("crypto", in, out)
+			}
+			// decrypt: round trip, tampered, truncated, wrong key, legacy box
+			ct, _ := kv.VerifEncrypt(&key, msg)
+			kinds := []string{"RT", "TAMPER", "TRUNC", "WRONGKEY", "LEGACY"}
+			kind := kinds[g.r.Intn(len(kinds))]
+			dkey := key
+			cc := append([]byte{}, ct...)
+			switch kind {
+			case "TAMPER":
+				i := g.r.Intn(len(cc))
+				cc[i] ^= byte(1 << uint(g.r.Intn(8)))
+			case "TRUNC":
+				cc = cc[:g.r.Intn(len(cc))]
+			case "WRONGKEY":
+				dkey[g.r.Intn(32)] ^= byte(1 << uint(g.r.Intn(8)))
+			case "LEGACY":
+				n := make([]byte, 24)
+				g.r.Read(n)
+				box, err := kv.VerifLegacySeal(msg, n, &key)
+				if err != nil {
+					panic(err)
+				}
+				cc = append(n, box...)
+			}
+			in, out := &tw{}, &tw{}
+			in.s("dec")
+			in.s(kind)
+			in.bytes(msg)
+			in.bytes(dkey[:])
+			in.bytes(cc)
+			if len(cc) >= 24 {
+				var n24 [24]byte
+				copy(n24[:], cc[:24])
+				if m, ok := secretbox.Open(nil, cc[24:], &n24, &dkey); ok {
+					in.s("S")
+					in.bytes(m)
+				} else {
+					in.s("_")
+				}
+				if m, err := kv.VerifLegacyOpen(cc[24:], cc[:24], &dkey); err == nil {
+					in.s("S")
+					in.bytes(m)
+				} else {
+					in.s("_")
+				}
+			} else {
+				in.s("_")
+				in.s("_")
+			}
+			if catch(func() {
+				m, err := kv.VerifDecrypt(&dkey, cc)
+				if err != nil {
+					out.s("err")
+				} else {
+					out.s("ok")
+					out.bytes(m)
+				}
+			}) {
+				out = &tw{}
+				out.s("P")
+			}
+			stats["crypto_dec_"+kind]++
+			emit("crypto", in, out)
 		}
 		// --- crdt.LastWriteWins (payload: opaque id)
 		{
